@@ -564,11 +564,16 @@ def real_overlap_cli(ctx, res):
         "condition-and-hooks": ({"condition": "true", "before": ["true"], "after": ["true"]}, {}, []),
         "timeout-and-variations": ({"timeout": "20s", "variations": [{"V": "1"}]}, {}, []),
         "allow-failure-env": ({"allow_failure": True, "env": {"E": "1"}, "variables": {"v": "1"}}, {}, []),
+        # each task first prints the beginning of a line and leaves it unfinished while it waits
+        "partial-line": ({"_pre": "printf 'waiting... '; "}, {}, []),
+        "partial-line-prefixed": ({"_pre": "printf 'waiting... '; "}, {}, ["--output", "prefixed"]),
     }
     jobs = []
     for name, (extra, ctxs, flags) in shapes.items():
-        ta = dict({"command": [wait % ("a", "b", "b")]}, **extra)
-        tb = dict({"command": [wait % ("b", "a", "a")]}, **extra)
+        extra = dict(extra)
+        pre = extra.pop("_pre", "")
+        ta = dict({"command": [pre + wait % ("a", "b", "b") + "; r=$?; echo; exit $r"]}, **extra)
+        tb = dict({"command": [pre + wait % ("b", "a", "a") + "; r=$?; echo; exit $r"]}, **extra)
         doc = {"tasks": {"ta": ta, "tb": tb, "tc": {"command": ['touch "$PROJ/m.c"']}},
                "pipelines": {"p": [{"task": "ta", "name": "a"}, {"task": "tb", "name": "b"}, {"task": "tc", "name": "c", "depends_on": ["a", "b"]}]}}
         if ctxs:
@@ -580,6 +585,15 @@ def real_overlap_cli(ctx, res):
            "pipelines": {"p": [{"task": "t", "name": "a", "variables": {"Me": "a", "Other": "b"}}, {"task": "t", "name": "b", "variables": {"Me": "b", "Other": "a"}},
                                {"task": "tc", "name": "c", "depends_on": ["a", "b"]}]}}
     jobs.append({"id": len(jobs), "files": {"cfg.json": clilib.jcfg(doc)}, "argv": ["-c", "cfg.json", "--raw", "run", "pipeline", "p"], "keep": ["m.a", "m.b", "m.c"], "timeout": 40, "shape": "shared-task"})
+    # a task whose CONDITION is slow (it waits for a mark of task c), a task that finishes meanwhile, and c, which gets to its own condition only
+    # later (its context has to be started first): c must not be held up by a's condition
+    cwait = 'i=0; while [ ! -e "$PROJ/m.c" ] && [ $i -lt 80 ]; do sleep 0.05; i=$((i+1)); done; [ -e "$PROJ/m.c" ]'
+    doc = {"contexts": {"slowstart": {"up": ["sleep 0.6"]}},
+           "tasks": {"ta": {"condition": cwait, "command": ['touch "$PROJ/m.a"']}, "tb": {"command": ["sleep 0.2; echo b-is-done"]},
+                     "tc": {"context": "slowstart", "condition": "true", "command": ['touch "$PROJ/m.c"']}, "td": {"command": ['[ -e "$PROJ/m.a" ] && touch "$PROJ/m.d"']}},
+           "pipelines": {"p": [{"task": "ta", "name": "a"}, {"task": "tb", "name": "b"}, {"task": "tc", "name": "c"}, {"task": "td", "name": "d", "depends_on": ["a", "b", "c"]}]}}
+    jobs.append({"id": len(jobs), "files": {"cfg.json": clilib.jcfg(doc)}, "argv": ["-c", "cfg.json", "--raw", "run", "pipeline", "p"], "keep": ["m.a", "m.b", "m.c", "m.d"], "timeout": 40,
+                 "shape": "slow-condition", "final": "m.d"})
     out = clilib.run_cli(ctx.workdir + "/realov", jobs, timeout=40, workers=4)
     for j in jobs:
         r = out[j["id"]]
@@ -589,7 +603,7 @@ def real_overlap_cli(ctx, res):
         case = {"kind": "real-overlap-cli", "shape": j["shape"], "argv": j["argv"], "config": json.loads(j["files"]["cfg.json"])}
         if r["timeout"] or clilib.crashed(r):
             res.violations.append({"class": None, "what": "two independent stages (%s): the run hung or crashed" % j["shape"], "case": case, "observed": (r.get("err") or "")[-500:]})
-        elif r["rc"] != 0 or "m.c" not in r["files"]:
+        elif r["rc"] != 0 or j.get("final", "m.c") not in r["files"]:
             res.violations.append({"class": None, "what": "two independent stages (%s) were not run at the same time: each waits for the other's mark and one of them gave up" % j["shape"],
                                    "case": case, "observed": {"rc": r["rc"], "marks": sorted(r["files"]), "wall_ms": r.get("wall_ms"), "err": (r.get("err") or "")[-400:]}})
 
